@@ -495,6 +495,415 @@ theorem ifModify_sim (hs : Sim cfg o now st m) (hd : o.cache ≠ .delay) (k : St
       simp only
       rw [this]; simp [Store.has, Store.get]
 
+theorem updateCache_write (hs : Sim cfg o now st m) (hd : o.cache ≠ .delay) (r : Rec) (rem : Bool) :
+    ∃ c, updateCache cfg o st r true rem = ({ st with cache := c }, false) ∧
+      (∀ k, k ≠ r.key → c.get k = st.cache.get k) ∧ (∀ rc, c.get r.key = some rc → rc = r) ∧
+      (o.cache = .none → c = []) := by
+  unfold updateCache
+  by_cases hc : o.cache = .none
+  · refine ⟨st.cache, by simp [hc], fun _ _ => rfl, ?_, fun _ => hs.nc hc⟩
+    intro rc h; rw [hs.nc hc] at h; simp [Store.get] at h
+  · simp only [hc, if_false]
+    by_cases hr : rem = true
+    · simp only [hr, if_true]
+      by_cases hh : st.cache.has r.key = true
+      · simp only [hh, if_true]
+        rw [evict_nowc cfg st r.key hs.wc]
+        refine ⟨st.cache.del r.key, rfl, fun k hk => Store.get_del_ne _ _ _ hk, ?_, by intro h; simp_all⟩
+        intro rc h; rw [Store.get_del_eq] at h; cases h
+      · refine ⟨st.cache, by simp [hh], fun _ _ => rfl, ?_, by intro h; simp_all⟩
+        intro rc h
+        exfalso; apply hh; simp [Store.has, h]
+    · have hr' : rem = false := by simpa using hr
+      have hdl : (o.cache = CacheMode.delay) = False := by simp [hd]
+      refine ⟨st.cache.put r, by simp [hr', hd], fun k hk => Store.get_put_ne _ _ _ hk, ?_, by intro h; simp_all⟩
+      intro rc h; rw [Store.get_put_eq] at h; cases h; rfl
+
+theorem putTail_sim (hs : Sim cfg o now st m) (hd : o.cache ≠ .delay) (r : Rec) :
+    Sim cfg o now
+      (match updateCache cfg o st r true r.md.isDeleted with
+        | (st, true) => (st, Out.ok)
+        | (st, false) => (ctlPut cfg st r, Out.ok)).1
+      (KV.store cfg.backend m r) ∧
+    KV.outEq cfg.backend (match updateCache cfg o st r true r.md.isDeleted with
+        | (st, true) => (st, Out.ok)
+        | (st, false) => (ctlPut cfg st r, Out.ok)).2 Out.ok := by
+  obtain ⟨c, hc, h1, h2, h3⟩ := updateCache_write hs hd r r.md.isDeleted
+  rw [hc]
+  exact ⟨write_sim hs r r c rfl rfl rfl h1 h2 h3, trivial⟩
+
+theorem ifPut_sim (hs : Sim cfg o now st m) (hd : o.cache ≠ .delay) (r : Rec) (isNew : Bool) :
+    Sim cfg o now (ifPut cfg o st r now isNew).1 (KV.put cfg.backend o m r now isNew).1 ∧
+    KV.outEq cfg.backend (ifPut cfg o st r now isNew).2 (KV.put cfg.backend o m r now isNew).2 := by
+  unfold ifPut KV.put
+  by_cases ha : o.all = true
+  · simp only [ha, Bool.not_true, Bool.false_eq_true, if_false, Bool.false_and]
+    obtain ⟨h1, h2⟩ := putTail_sim hs hd { r with md := o.apply (if isNew then r.md.reset else r.md) now }
+    exact ⟨h1, h2⟩
+  · have ha' : o.all = false := by simpa using ha
+    obtain ⟨g1, g2⟩ := getMeta_sim hs r.key
+    simp only [ha', Bool.not_false, if_true, Bool.true_and]
+    generalize getMeta cfg o st r.key now = gm at *
+    obtain ⟨res, st1⟩ := gm
+    simp only at g1 g2
+    cases hvv : vis now (m.get r.key) with
+    | none =>
+      rw [hvv] at g2; simp only at g2; subst g2
+      simp only [Bool.false_eq_true, if_false]
+      obtain ⟨h1, h2⟩ := putTail_sim g1 hd { r with md := o.apply (if isNew then r.md.reset else r.md) now }
+      exact ⟨h1, h2⟩
+    | some old =>
+      rw [hvv] at g2; simp only at g2
+      by_cases hp : old.md.permitted o.loc o.int = true
+      · simp only [hp, if_true] at g2; subst g2
+        simp only [hp, Bool.not_true, Bool.false_eq_true, if_false]
+        obtain ⟨h1, h2⟩ := putTail_sim g1 hd { r with md := o.apply (if isNew then r.md.reset else r.md) now }
+        exact ⟨h1, h2⟩
+      · have hp' : old.md.permitted o.loc o.int = false := by simpa using hp
+        simp only [hp', Bool.false_eq_true, if_false] at g2; subst g2
+        simp only [hp', Bool.not_false, if_true]
+        exact ⟨g1, rfl⟩
+
+/-! #### queries, purge, maintenance, batches -/
+
+theorem Store.nodup_filter {s : Store} (h : s.NodupKeys) (p : Rec → Bool) : Store.NodupKeys (s.filter p) := by
+  unfold Store.NodupKeys at *
+  exact List.Nodup.sublist (List.Sublist.map _ List.filter_sublist) h
+
+theorem Store.get_filter {s : Store} (h : s.NodupKeys) (p : Rec → Bool) (k : String) :
+    Store.get (s.filter p) k = (Store.get s k).bind (fun r => if p r then some r else none) := by
+  have : s.filter p = s.filterMap (fun r => if p r then some r else none) := by
+    induction s with
+    | nil => rfl
+    | cons x s ih =>
+      have hs : Store.NodupKeys s := by
+        unfold Store.NodupKeys at *; simp only [List.map_cons, List.nodup_cons] at h; exact h.2
+      by_cases hp : p x = true <;> simp [List.filter, List.filterMap_cons, hp, ih hs]
+  rw [this]
+  apply Store.get_filterMap h
+  intro r r' hr
+  by_cases hp : p r = true <;> simp [hp] at hr
+  subst hr; rfl
+
+/-- Filters that only accept valid records see the same records in storage and reference. -/
+theorem filter_perm_of_view {s m : Store} (p : Rec → Bool)
+    (hp : ∀ a, p a = true → a.md.valid now = true)
+    (hv : ∀ k, vis now (s.get k) = vis now (m.get k)) (hs : s.NodupKeys) (hm : m.NodupKeys) :
+    (s.filter p).Perm (m.filter p) := by
+  apply (List.perm_ext_iff_of_nodup
+    (List.Nodup.sublist List.filter_sublist (Store.nodup_list hs))
+    (List.Nodup.sublist List.filter_sublist (Store.nodup_list hm))).mpr
+  intro a
+  have key : ∀ (t : Store), t.NodupKeys → (a ∈ t.filter p ↔ vis now (t.get a.key) = some a ∧ p a = true) := by
+    intro t ht
+    rw [List.mem_filter, Store.mem_iff_get ht]
+    constructor
+    · rintro ⟨h1, h2⟩; rw [h1, vis_of_valid (hp a h2)]; exact ⟨rfl, h2⟩
+    · rintro ⟨h1, h2⟩; exact ⟨(vis_some h1).1, h2⟩
+  rw [key s hs, key m hm, hv a.key]
+
+/-- Pointwise rewriting of storage and reference by functions that agree on valid records and keep invalid
+    records invalid preserves the common view. -/
+theorem view_bind {a b : Option Rec} (g g' : Rec → Option Rec)
+    (hval : ∀ r, r.md.valid now = true → vis now (g r) = vis now (g' r))
+    (hinv : ∀ r, r.md.valid now = false → vis now (g r) = none)
+    (hinv' : ∀ r, r.md.valid now = false → vis now (g' r) = none)
+    (hab : vis now a = vis now b) : vis now (a.bind g) = vis now (b.bind g') := by
+  have one : ∀ (x : Option Rec) (f : Rec → Option Rec), (∀ r, r.md.valid now = false → vis now (f r) = none) →
+      vis now (x.bind f) = (vis now x).elim none (fun r => vis now (f r)) := by
+    intro x f hf
+    cases x with
+    | none => rfl
+    | some r =>
+      by_cases hv : r.md.valid now = true
+      · simp [vis_of_valid hv, Option.elim]
+      · have hv' : r.md.valid now = false := by simpa using hv
+        simp [vis_of_invalid hv', Option.elim, hf r hv']
+  rw [one a g hinv, one b g' hinv', hab]
+  cases hb : vis now b with
+  | none => rfl
+  | some r => simp only [Option.elim]; exact hval r (vis_some hb).2
+
+theorem selects_valid (q : Query) (l i : Bool) (a : Rec) (h : q.selects l i now a = true) : a.md.valid now = true := by
+  unfold Query.selects at h; simp at h; exact h.1.1.2
+
+theorem purges_valid (q : Query) (l i : Bool) (a : Rec) (h : q.purges l i now a = true) : a.md.valid now = true := by
+  unfold Query.purges at h; simp at h; exact h.1.2
+
+theorem ifQuery_sim (hs : Sim cfg o now st m) (q : Query) :
+    Sim cfg o now (ifQuery o st q now).1 (KV.step cfg o m (.query q) now).1 ∧
+    KV.outEq cfg.backend (ifQuery o st q now).2 (KV.step cfg o m (.query q) now).2 := by
+  unfold ifQuery KV.step
+  by_cases hc : q.check = true
+  · simp only [hc, Bool.not_true, Bool.false_eq_true, if_false]
+    exact ⟨hs, filter_perm_of_view _ (selects_valid q o.loc o.int) hs.view hs.nds hs.ndm⟩
+  · simp only [hc, Bool.not_false, if_true]
+    exact ⟨hs, rfl⟩
+
+theorem purgeRec_key (cfg : Cfg) (q : Query) (l i : Bool) (r r' : Rec) (h : purgeRec cfg q l i now r = some r') :
+    r'.key = r.key := by
+  unfold purgeRec at h
+  split at h
+  · split at h
+    · cases h; exact stored_key _ _
+    · cases h
+  · cases h; rfl
+
+theorem ifPurge_sim (hs : Sim cfg o now st m) (hpos : 0 < now) (hcn : o.cache = .none) (q : Query) :
+    Sim cfg o now (ifPurge cfg o st q now).1 (KV.step cfg o m (.purge q) now).1 ∧
+    KV.outEq cfg.backend (ifPurge cfg o st q now).2 (KV.step cfg o m (.purge q) now).2 := by
+  unfold ifPurge KV.step
+  by_cases hc : q.check = true
+  · simp only [hc, Bool.not_true, Bool.false_eq_true, if_false]
+    by_cases hp : cfg.backend.hasPurge = true
+    · simp only [hp, Bool.not_true, Bool.false_eq_true, if_false]
+      unfold purge
+      simp only
+      refine ⟨?_, ?_⟩
+      · refine { view := ?_, coh := ?_, fixed := ?_, nds := ?_, ndm := ?_, wc := hs.wc, nc := hs.nc }
+        · intro k
+          rw [Store.get_filterMap hs.nds _ (purgeRec_key cfg q o.loc o.int), Store.get_filter hs.ndm]
+          apply view_bind _ _ _ _ _ (hs.view k)
+          · intro r hv
+            unfold purgeRec
+            by_cases hpu : q.purges o.loc o.int now r = true
+            · simp only [hpu, if_true, Bool.not_true, Bool.false_eq_true, if_false]
+              split
+              · rw [vis_of_invalid]; · rfl
+                rw [stored_md]; apply Meta.deleted_invalid; unfold Meta.delete; simp; exact hpos
+              · rfl
+            · simp [hpu]
+          · intro r hv
+            have : q.purges o.loc o.int now r = false := by
+              cases h : q.purges o.loc o.int now r with
+              | false => rfl
+              | true => rw [purges_valid q _ _ r h] at hv; cases hv
+            unfold purgeRec; simp [this, vis_of_invalid hv]
+          · intro r hv
+            by_cases h : (!q.purges o.loc o.int now r) = true <;> simp [h, vis_of_invalid hv, vis_none]
+        · intro k rc hcc; simp only at hcc; rw [hs.nc hcn] at hcc; simp [Store.get] at hcc
+        · intro k r hr
+          simp only at hr
+          rw [Store.get_filterMap hs.nds _ (purgeRec_key cfg q o.loc o.int)] at hr
+          cases hg : st.store.get k with
+          | none => rw [hg] at hr; cases hr
+          | some x =>
+            rw [hg] at hr; simp only [Option.bind] at hr
+            unfold purgeRec at hr
+            split at hr
+            · split at hr
+              · cases hr; exact stored_idem _ _
+              · cases hr
+            · cases hr; exact hs.fixed k _ hg
+        · exact Store.nodup_filterMap hs.nds _ (purgeRec_key cfg q o.loc o.int)
+        · exact Store.nodup_filter hs.ndm _
+      · exact List.Perm.length_eq (filter_perm_of_view _ (purges_valid q o.loc o.int) hs.view hs.nds hs.ndm)
+    · simp only [hp, Bool.not_false, if_true]
+      exact ⟨hs, rfl⟩
+  · simp only [hc, Bool.not_false, if_true]
+    exact ⟨hs, rfl⟩
+
+theorem maintainRec_key (cfg : Cfg) (thr : Int) (r r' : Rec) (h : maintainRec cfg now thr r = some r') : r'.key = r.key := by
+  unfold maintainRec at h
+  split at h
+  · split at h
+    · cases h; exact stored_key _ _
+    · cases h
+  · split at h
+    · cases h
+    · cases h; rfl
+
+/-- Maintenance leaves a valid record alone. -/
+theorem maintainRec_valid (cfg : Cfg) (thr : Int) (r : Rec) (hv : r.md.valid now = true) :
+    maintainRec cfg now thr r = some r := by
+  unfold Meta.valid at hv
+  unfold maintainRec
+  by_cases hd : r.md.deleted > 0
+  · simp [hd] at hv
+  · simp only [hd, if_false] at hv
+    by_cases he : r.md.expires > 0 ∧ r.md.expires < now
+    · simp [he] at hv
+    · have h1 : ¬ (r.md.deleted = 0 ∧ r.md.expires > 0 ∧ r.md.expires < now) := fun h => he h.2
+      have h2 : ¬ (r.md.deleted > 0 ∧ (!cfg.shadow ∨ r.md.deleted < thr)) := fun h => hd h.1
+      simp only [h1, h2, if_false]
+
+/-- Whatever maintenance does to a record that is not valid, the result is not valid. -/
+theorem maintainRec_invalid (cfg : Cfg) (thr : Int) (r : Rec) (hv : r.md.valid now = false) :
+    vis now (maintainRec cfg now thr r) = none := by
+  unfold maintainRec
+  split
+  · rename_i h
+    split
+    · rw [vis_of_invalid]; rw [stored_md]; apply Meta.deleted_invalid; simp; exact h.2.1
+    · rfl
+  · split
+    · rfl
+    · exact vis_of_invalid hv
+
+theorem maintain_sim (hs : Sim cfg o now st m) (thr : Int) (skip : List String) :
+    Sim cfg o now { st with store := maintainSkip cfg st.store now thr skip } m := by
+  unfold maintainSkip
+  by_cases hm : cfg.backend.maintains = true
+  · simp only [hm, if_true]
+    have hkey : ∀ r r', (if skip.contains r.key = true then some r else maintainRec cfg now thr r) = some r' → r'.key = r.key := by
+      intro r r' h
+      split at h
+      · cases h; rfl
+      · exact maintainRec_key cfg thr r r' h
+    have hvalid : ∀ r, r.md.valid now = true →
+        (if skip.contains r.key = true then some r else maintainRec cfg now thr r) = some r := by
+      intro r hv; split
+      · rfl
+      · exact maintainRec_valid cfg thr r hv
+    refine { view := ?_, coh := ?_, fixed := ?_, nds := ?_, ndm := hs.ndm, wc := hs.wc, nc := hs.nc }
+    · intro k
+      simp only
+      rw [Store.get_filterMap hs.nds _ hkey]
+      have : m.get k = (m.get k).bind some := by cases m.get k <;> rfl
+      rw [this]
+      apply view_bind _ _ _ _ _ (hs.view k)
+      · intro r hv; rw [hvalid r hv]
+      · intro r hv; split
+        · exact vis_of_invalid hv
+        · exact maintainRec_invalid cfg thr r hv
+      · intro r hv; exact vis_of_invalid hv
+    · intro k rc hc hv
+      simp only at hc ⊢
+      rw [Store.get_filterMap hs.nds _ hkey, hs.coh k rc hc hv]
+      simp only [Option.bind]
+      exact hvalid _ (by rw [stored_md]; exact hv)
+    · intro k r hr
+      simp only at hr
+      rw [Store.get_filterMap hs.nds _ hkey] at hr
+      cases hg : st.store.get k with
+      | none => rw [hg] at hr; cases hr
+      | some x =>
+        rw [hg] at hr; simp only [Option.bind] at hr
+        split at hr
+        · cases hr; exact hs.fixed k _ hg
+        · unfold maintainRec at hr
+          split at hr
+          · split at hr
+            · cases hr; exact stored_idem _ _
+            · cases hr
+          · split at hr
+            · cases hr
+            · cases hr; exact hs.fixed k _ hg
+    · exact Store.nodup_filterMap hs.nds _ hkey
+  · simp only [hm]
+    exact { view := hs.view, coh := hs.coh, fixed := hs.fixed, nds := hs.nds, ndm := hs.ndm, wc := hs.wc, nc := hs.nc }
+
+theorem batch_sim (b : Backend) (sh : Bool) (rs : List Rec) :
+    ∀ (s m : Store), (∀ k, vis now (s.get k) = vis now (m.get k)) →
+      (∀ k r, s.get k = some r → stored b r = r) → s.NodupKeys → m.NodupKeys →
+      (∀ k, vis now ((batchApply { backend := b, shadow := sh } o now s rs).get k) = vis now ((KV.storeAll b o now m rs).get k)) ∧
+      (∀ k r, (batchApply { backend := b, shadow := sh } o now s rs).get k = some r → stored b r = r) ∧
+      (batchApply { backend := b, shadow := sh } o now s rs).NodupKeys ∧ (KV.storeAll b o now m rs).NodupKeys := by
+  induction rs with
+  | nil => intro s m hv hf hs hm; exact ⟨hv, hf, hs, hm⟩
+  | cons r rest ih =>
+    intro s m hv hf hs hm
+    unfold batchApply KV.storeAll
+    apply ih
+    · intro k
+      exact storePut_view (cfg := { backend := b, shadow := sh }) _ _ hv rfl rfl rfl k
+    · exact storePut_fixed (cfg := { backend := b, shadow := sh }) hf _
+    · exact storePut_nodup hs _
+    · exact kvstore_nodup hm _
+
+theorem ifPutMany_sim (hs : Sim cfg o now st m) (hcn : o.cache = .none) (rs : List Rec) :
+    Sim cfg o now (ifPutMany cfg o st rs now).1 (KV.step cfg o m (.putMany rs) now).1 ∧
+    KV.outEq cfg.backend (ifPutMany cfg o st rs now).2 (KV.step cfg o m (.putMany rs) now).2 := by
+  unfold ifPutMany KV.step
+  by_cases ha : o.all = true
+  · simp only [ha, Bool.not_true, Bool.false_eq_true, if_false]
+    by_cases hb : cfg.backend.hasBatch = true
+    · simp only [hb, Bool.not_true, Bool.false_eq_true, if_false]
+      obtain ⟨b, sh⟩ := cfg
+      obtain ⟨h1, h2, h3, h4⟩ := batch_sim (o := o) (now := now) b sh rs st.store m hs.view hs.fixed hs.nds hs.ndm
+      refine ⟨{ view := h1, coh := ?_, fixed := h2, nds := h3, ndm := h4, wc := hs.wc, nc := hs.nc }, trivial⟩
+      intro k rc hc; simp only at hc; rw [hs.nc hcn] at hc; simp [Store.get] at hc
+    · simp only [hb, Bool.not_false, if_true]; exact ⟨hs, rfl⟩
+  · simp only [ha, Bool.not_false, if_true]; exact ⟨hs, rfl⟩
+
+theorem ifInsert_sim (hs : Sim cfg o now st m) (hcn : o.cache = .none) (k attr : String) (p : Prim) :
+    Sim cfg o now (ifInsert cfg o st k attr p now).1 (KV.insert cfg.backend o m k attr p now).1 ∧
+    KV.outEq cfg.backend (ifInsert cfg o st k attr p now).2 (KV.insert cfg.backend o m k attr p now).2 := by
+  have hd : o.cache ≠ .delay := by rw [hcn]; decide
+  obtain ⟨h1, h2, h3, h4⟩ := getRecord_sim hs hd k
+  unfold ifInsert KV.insert
+  generalize getRecord cfg o st k now = gr at *
+  obtain ⟨res, st1⟩ := gr
+  cases res with
+  | error e => simp only at h3 ⊢; rw [h3 e rfl]; exact ⟨h1, rfl⟩
+  | ok r =>
+    simp only at h1 h2 h4 ⊢
+    obtain ⟨hkv, hv, _, hkey, _, hfix⟩ := h4 r rfl
+    rw [hkv, hfix hcn]
+    simp only
+    cases hsf : setField r.form r.fields attr p with
+    | none => exact ⟨h1, rfl⟩
+    | some fs =>
+      simp only
+      rw [aliasUpdate_nowc _ _ h1.wc]
+      refine ⟨?_, trivial⟩
+      have hc0 : st1.cache = [] := h1.nc hcn
+      apply write_sim h1 _ _ _ rfl rfl rfl
+      · intro k' _; simp only; rw [hc0]; simp [Store.has, Store.get]
+      · intro rc hrc; simp only at hrc; rw [hc0] at hrc; simp [Store.has, Store.get] at hrc
+      · intro _; simp only; rw [hc0]; simp [Store.has, Store.get]
+
+theorem step_sim (hs : Sim cfg o now st m) (hpos : 0 < now) (hd : o.cache ≠ .delay) (op : Op) (hsafe : KV.cacheSafe o op) :
+    Sim cfg o now (step cfg o st op now).1 (KV.step cfg o m op now).1 ∧
+    KV.outEq cfg.backend (step cfg o st op now).2 (KV.step cfg o m op now).2 := by
+  cases op with
+  | get k => exact ifGet_sim hs hd k
+  | exists_ k => exact ifExists_sim hs hd k
+  | put r => exact ifPut_sim hs hd r false
+  | putNew r => exact ifPut_sim hs hd r true
+  | delete k => exact ifModify_sim hs hd k _
+  | setAbs k t => exact ifModify_sim hs hd k _
+  | setRel k d => exact ifModify_sim hs hd k _
+  | mkSecret k => exact ifModify_sim hs hd k _
+  | mkCrown k => exact ifModify_sim hs hd k _
+  | insert k a p => exact ifInsert_sim hs hsafe k a p
+  | putMany rs => exact ifPutMany_sim hs hsafe rs
+  | query q => exact ifQuery_sim hs q
+  | purge q => exact ifPurge_sim hs hpos hsafe q
+  | maintain thr skip => exact ⟨maintain_sim hs thr skip, trivial⟩
+  | flush =>
+    unfold step ifFlush KV.step
+    simp only [hd, ne_eq, not_false_eq_true, if_true]
+    exact ⟨hs, trivial⟩
+  | clear =>
+    unfold step ifClear KV.step
+    refine ⟨{ view := hs.view, coh := ?_, fixed := hs.fixed, nds := hs.nds, ndm := hs.ndm, wc := hs.wc, nc := fun _ => rfl }, trivial⟩
+    intro k rc hc; simp [Store.get] at hc
+  | evict k =>
+    unfold step KV.step
+    simp only
+    split
+    · rw [evict_nowc cfg st k hs.wc]; exact ⟨hs.dropCache k, trivial⟩
+    · exact ⟨hs, trivial⟩
+
 end ops
+
+/-- Refinement of whole histories from related states. -/
+theorem run_sim {cfg : Cfg} {o : Opts} (hd : o.cache ≠ .delay) :
+    ∀ (ops : List (Op × Int)) (t : Int) (st : ISt) (m : Store), Sim cfg o t st m → KV.wellTimed t ops →
+      (∀ x ∈ ops, KV.cacheSafe o x.1) →
+      KV.outsEq cfg.backend (run cfg o st ops) (KV.run cfg o m ops) := by
+  intro ops
+  induction ops with
+  | nil => intro t st m _ _ _; trivial
+  | cons x rest ih =>
+    intro t st m hs ht hsafe
+    obtain ⟨op, now⟩ := x
+    obtain ⟨hle, hpos, hrest⟩ := ht
+    have h := step_sim (hs.mono hle) hpos hd op (hsafe (op, now) (List.mem_cons_self ..))
+    unfold run KV.run
+    simp only
+    refine ⟨h.2, ?_⟩
+    exact ih now _ _ h.1 hrest (fun y hy => hsafe y (List.mem_cons_of_mem _ hy))
 
 end PB.Db
